@@ -25,6 +25,7 @@ from ..core import UnitResult, BoundedResult, REPO
 from ..unit import Unit
 from ..engine.prove import Session, jfloat
 from ..engine import arrays as A
+from ..engine import values as V
 from ..engine.values import SReal
 from . import models as M
 
@@ -70,15 +71,16 @@ def unit_model(key, tier, seed, prop="C02"):
             S.fail("shape", "result is not an array")
             return
         val = res.at(k)
-        S.names["result_k"] = val.term
+        vt = V.rterm(val)            # (an element may be a concrete number, e.g. of an array of zeros)
+        S.names["result_k"] = vt
         S.ensure("shape", res.len_term() == n)
         S.ensure("frame.delta", not any(m is delta for m in I.mutations))
-        not_nan = z3.Not(A._zb(val.nan))
+        not_nan = z3.Not(A._zb(V.nanflag(val)))
         S.ensure("out_of_contact", z3.Implies(z3.And(inr, r <= 0),
-                                              z3.And(val.term == P["baseline"], not_nan)),
+                                              z3.And(vt == P["baseline"], not_nan)),
                  extra=M.spec_axioms(key, P, r))
         spec = M.contact_term(key, P, r) + P["baseline"]
-        S.ensure("in_contact", z3.Implies(z3.And(inr, r > 0), z3.And(val.term == spec, not_nan)),
+        S.ensure("in_contact", z3.Implies(z3.And(inr, r > 0), z3.And(vt == spec, not_nan)),
                  extra=M.spec_axioms(key, P, r))
 
     S.run(setup, post)
@@ -241,6 +243,11 @@ def unit_canaries(tier, seed):
 def units(tier):
     us = [Unit(f"model.{k}", unit_model, key=k) for k in M.MODELS]
     us.append(Unit("bounded.sneddon_1e-4", unit_sneddon_bound))
+    # "each shipped model returns ..." is what NaniteFitModel.model returns: the direction-agnostic wrapper around the
+    # model function is part of the path (contract shared with C13)
+    from . import resid
+    us += [Unit("model_direction_agnostic", resid.unit_mda, prop="C02", which="mda"),
+           Unit("default_modeling_wrapper", resid.unit_mda, prop="C02", which="modeling_wrapper")]
     if tier == "thorough" and not os.environ.get("VF_NO_CANARIES") and str(REPO) == "/repo":
         us.append(Unit("selftest.canaries", unit_canaries))
     return us
